@@ -101,6 +101,93 @@ theorem ranked_no_deadlock (s : State) (hok : ∀ (i : Nat) (t : Thread), s[i]? 
     omega
   exact key bound i0 t l rest hi hp hb (Nat.zero_le _) bound hbound (by omega)
 
+/-! ### Reader/writer locks: the real blocking rules imply the mutex formulation -/
+
+theorem erase_getElem? (s : RW.State) (i : Nat) :
+    (s.map RW.erase)[i]? = (s[i]?).map RW.erase := by
+  simp
+
+/-- A thread blocked under reader/writer semantics (either policy) that does not already
+hold the lock it asks for is blocked in the mutex formulation. -/
+theorem rw_blocked_erase (s : RW.State) (i : Nat) (h : RW.blocked s i)
+    (hnot : ∀ (t : RW.Thread) (m : RW.Mode) (l : Nat) (rest : List RW.Act), s[i]? = some t →
+      t.prog = .acq m l :: rest → ¬ RW.holds s i l) :
+    blocked (s.map RW.erase) i := by
+  obtain ⟨t, m, l, rest, hi, hp, hcase⟩ := h
+  have hnoti := hnot t m l rest hi hp
+  refine ⟨RW.erase t, l, rest.map RW.eraseAct, ?_, ?_, ?_⟩
+  · rw [erase_getElem?, hi]; rfl
+  · simp [RW.erase, hp, RW.eraseAct]
+  · -- some other thread holds `l`
+    have hold : ∃ k, k ≠ i ∧ RW.holds s k l := by
+      rcases hcase with ⟨j, hji, hj, _⟩ | ⟨_, j, _, _, k, _, hk⟩
+      · exact ⟨j, hji, hj⟩
+      · refine ⟨k, ?_, hk⟩
+        intro hki
+        subst hki
+        exact hnoti hk
+    obtain ⟨k, hki, tk, mk, hk, hmem⟩ := hold
+    refine ⟨k, hki, RW.erase tk, ?_, ?_⟩
+    · rw [erase_getElem?, hk]; rfl
+    · simp only [RW.erase, List.mem_map]
+      exact ⟨(l, mk), hmem, rfl⟩
+
+/-- **No deadlock with reader/writer locks** under the same ranking discipline (stated on the
+erased programs: the rank of a lock does not depend on the mode it is taken in). -/
+theorem rw_ranked_no_deadlock (s : RW.State)
+    (hok : ∀ (i : Nat) (t : RW.Thread), s[i]? = some t → (RW.erase t).ok) :
+    ¬ RW.Deadlock s := by
+  intro hd
+  apply ranked_no_deadlock (s.map RW.erase)
+  · intro i t hi
+    rw [erase_getElem?] at hi
+    cases hsi : s[i]? with
+    | none => rw [hsi] at hi; cases hi
+    | some ti =>
+      rw [hsi] at hi
+      simp at hi
+      subst hi
+      exact hok i ti hsi
+  · obtain ⟨⟨i0, t0, hi0, hne0⟩, hall⟩ := hd
+    constructor
+    · refine ⟨i0, RW.erase t0, ?_, ?_⟩
+      · rw [erase_getElem?, hi0]; rfl
+      · simp [Thread.finished, RW.erase, hne0]
+    · intro i t hi hnf
+      rw [erase_getElem?] at hi
+      cases hsi : s[i]? with
+      | none => rw [hsi] at hi; cases hi
+      | some ti =>
+        rw [hsi] at hi
+        simp at hi
+        subst hi
+        have hne : ti.prog ≠ [] := by
+          intro hnil
+          apply hnf
+          simp [Thread.finished, RW.erase, hnil]
+        apply rw_blocked_erase s i (hall i ti hsi hne)
+        -- a thread following the discipline never asks for a lock it holds
+        intro t' m l rest ht' hp' hholds
+        rw [hsi] at ht'
+        cases ht'
+        obtain ⟨t2, m2, ht2, hmem⟩ := hholds
+        rw [hsi] at ht2
+        cases ht2
+        have hokt := hok i ti hsi
+        have hacq : (RW.erase ti).prog = .acq l :: rest.map RW.eraseAct := by
+          simp [RW.erase, hp', RW.eraseAct]
+        have := ok_next_acq hokt hacq l (by
+          simp only [RW.erase, List.mem_map]
+          exact ⟨(l, m2), hmem, rfl⟩)
+        omega
+
+/-- Non-vacuity: two readers of the root lock and a store-wide writer, every program in rank
+order; and the rules do block – a writer behind a reader. -/
+example : (RW.erase ⟨[.acq .r 10, .acq .w 15, .rel 15, .rel 10], []⟩).ok ∧
+    RW.blocked [⟨[.acq .w 10, .rel 10], []⟩, ⟨[.rel 10], [(10, .r)]⟩] 0 := by
+  refine ⟨by simp [RW.erase, RW.eraseAct, Thread.ok, okProg], ?_⟩
+  refine ⟨_, .w, 10, [.rel 10], rfl, rfl, Or.inl ⟨1, by decide, ⟨_, .r, rfl, by simp⟩, Or.inl rfl⟩⟩
+
 /-- The discipline holds in every state reachable from one in which it holds: a step of any
 thread keeps every thread's program in order. -/
 theorem discipline_preserved (s : State) (i : Nat) (t t' : Thread)
